@@ -126,6 +126,12 @@ func (nd *ndArrayTypeC) Reshape(newShape []int) (data.NDArrayType, error) {
 		return nil, errors.New("Size mismatch")
 	}
 
+	if !nd.Contiguous() {
+		// Elements are not adjacent in the caller's memory: copy them out in
+		// row-major order, as the Go-backed arrays do.
+		return data.ArrayFromSliceArrayType(nd.Unroll(), newShape), nil
+	}
+
 	reshapeToSeries := (len(newShape) == 1) && (data.Maximum(nd.Shape()) == len(newShape))
 
 	if nd.Contiguous() || !reshapeToSeries {
